@@ -61,9 +61,9 @@ def plan(tier, seed):
     descs = [{"kind": "fixed", "i": i, "storages": STORAGES} for i in range(len(FIXED))]
     for i in range(n):
         if tier == "quick":
-            st = ["file_array", "dict"] + (["shared_memory_dict"] if i % 8 == 0 else []) + (["mix"] if i % 4 == 1 else [])
+            st = ["file_array", "dict"] + (["shared_memory_dict"] if i % 8 == 0 else []) + (["mix"] if i % 4 == 1 else []) + (["dict-nofolder"] if i % 4 == 2 else [])
         else:
-            st = ["file_array", "dict", "mix"] + (["shared_memory_dict"] if i % 6 == 0 else [])
+            st = ["file_array", "dict", "mix", "dict-nofolder"] + (["shared_memory_dict"] if i % 6 == 0 else [])
         descs.append({"kind": "gen", "seed": seed, "i": i, "storages": st})
     if tier == "thorough":
         descs += [{"kind": "single", "i": i, "storages": ["file_array", "dict"]} for i in range(single_count())]
@@ -168,6 +168,8 @@ def check_run(v, case, st, storage, env, exp_calls, scratch, cfg=""):
     log = probes.new_log(scratch)
     inputs = mapgen.make_inputs(case)
     folder = os.path.join(scratch, f"run-{st}")
+    if st == "dict-nofolder":  # purely in-memory run: no run folder at all
+        folder, storage = None, "dict"
     try:
         with quiet():
             pipeline = mapgen.build_pipeline(case, log=log)
@@ -209,6 +211,8 @@ def check_run(v, case, st, storage, env, exp_calls, scratch, cfg=""):
                     v.bad(f"shape:result/{st}", f"Result.output of {o} has shape {np.shape(got)}, expected {es}",
                           case=mapgen.describe(case))
                     ok = False
+            if folder is None:
+                continue
             try:
                 with quiet():
                     lo = load_outputs(o, run_folder=folder)
@@ -308,7 +312,7 @@ def finalize(agg, tier, seed):
             floors.append(f"structural class {c} hit only {agg.classes.get(c, 0)} times (< 10)")
     if agg.counters.get("first_runs_cut_short:unpicklable", 0) < 20 or agg.counters.get("first_runs_cut_short:raise", 0) < 50:
         floors.append("too few faulted-first-run / repeat scenarios")
-    for k in ["runs_file_array", "runs_dict", "runs_shared_memory_dict", "runs_mix"]:
+    for k in ["runs_file_array", "runs_dict", "runs_shared_memory_dict", "runs_mix", "runs_dict-nofolder"]:
         if agg.counters.get(k, 0) < 50:
             floors.append(f"{k}={agg.counters.get(k, 0)} (< 50)")
     return floors, {}
